@@ -85,7 +85,7 @@ func ruleScheduleBase(r *rep.Report, p *load.Program) {
 				o.Vals[i] = v
 			}
 			return nil, true
-		case pkg == "internal/ge25519" && strings.HasPrefix(f.Name(), "scalarmultBaseChooseNiels"):
+		case pkg == "internal/ge25519" && strings.HasPrefix(ssau.CanonName(f), "scalarmultBaseChooseNiels"):
 			ev := schedEvent{kind: "choose", pos: -1, digit: -1}
 			if v, ok := args[2].(absint.Val); ok && v.IsConst() {
 				ev.pos = int(v.Int64())
@@ -102,7 +102,7 @@ func ruleScheduleBase(r *rep.Report, p *load.Program) {
 			chosen[obj(args[0])] = &e
 			events = append(events, ev)
 			return nil, true
-		case pkg == "internal/ge25519" && f.Name() == "nielsAdd2":
+		case pkg == "internal/ge25519" && ssau.CanonName(f) == "nielsAdd2":
 			c := chosen[obj(args[1])]
 			if obj(args[0]) != rObj || c == nil {
 				note("a niels addition that does not add a looked-up entry to the result at " + ssau.InstrPos(p, call))
@@ -111,7 +111,7 @@ func ruleScheduleBase(r *rep.Report, p *load.Program) {
 			events = append(events, schedEvent{kind: "add", pos: c.pos, digit: c.digit, what: c.what})
 			delete(chosen, obj(args[1]))
 			return nil, true
-		case pkg == "internal/ge25519" && (f.Name() == "doublePartial" || f.Name() == "Double"):
+		case pkg == "internal/ge25519" && (ssau.CanonName(f) == "doublePartial" || f.Name() == "Double"):
 			if obj(args[0]) != rObj || obj(args[1]) != rObj {
 				note("a doubling that is not r = 2r at " + ssau.InstrPos(p, call))
 			}
@@ -395,7 +395,7 @@ func ruleScheduleDouble(r *rep.Report, p *load.Program) {
 			for _, in := range blk.Instrs {
 				if c, ok := in.(*ssa.Call); ok {
 					if f := c.Common().StaticCallee(); f != nil {
-						calls[f.Name()] = true
+						calls[ssau.CanonName(f)] = true
 					}
 				}
 			}
